@@ -19,22 +19,22 @@ End Order.
 
 Section Collect.
   Context {A : Type} (sz : A -> Q).   (* hypothetical_main_size + main_outer_extra *)
-  (* the loop of step 5; `first` = not (i > skip); `line`, `line_size` are the loop variables *)
-  Fixpoint collect_aux (wrap : bool) (main gap : Q) (first : bool) (line : list A) (line_size : Q) (l : list A)
+  (* the loop of step 5; `line`, `line_size` are the loop variables *)
+  Fixpoint collect_aux (wrap : bool) (main gap : Q) (line : list A) (line_size : Q) (l : list A)
     : list (list A) :=
     match l with
     | [] => match line with [] => [] | _ => [line] end
     | c :: t =>
-        let ls := line_size + sz c + (if first then 0 else gap) in
+        let ls := line_size + sz c + (match line with [] => 0 | _ => gap end) in
         if wrap && (if Qlt_le_dec main ls then true else false)
         then match line with
-             | [] => [c] :: collect_aux wrap main gap false [] 0 t
-             | _ => line :: collect_aux wrap main gap false [c] (sz c) t
+             | [] => [c] :: collect_aux wrap main gap [] 0 t
+             | _ => line :: collect_aux wrap main gap [c] (sz c) t
              end
-        else collect_aux wrap main gap false (line ++ [c]) ls t
+        else collect_aux wrap main gap (line ++ [c]) ls t
     end.
   Definition collect (wrap : bool) (main gap : Q) (l : list A) : list (list A) :=
-    collect_aux wrap main gap true [] 0 l.
+    collect_aux wrap main gap [] 0 l.
 
   (* outer size of a line as css-flexbox 9.3 counts it *)
   Definition line_outer (gap : Q) (line : list A) : Q := sumQ sz line + gaps_enum line gap.
@@ -60,7 +60,7 @@ Inductive justify := JStart | JEnd | JCenter | JBetween | JAround | JEvenly | JS
 
 (* an item as step 12 sees it: border-box width without the content width is in jextra
    (paddings + borders), content width jw, margins (None = auto), flex-grow (for 'stretch') *)
-Record jitem := mkJ { jid : Z; jw : Q; jpb : Q; jml : option Q; jmr : option Q; jgrow : Q }.
+Record jitem := mkJ { jid : Z; jw : Q; jpb : Q; jml : option Q; jmr : option Q; jgrow : Q; jmin : Q; jmax : option Q }.
 
 Definition oz (m : option Q) : Q := match m with None => 0 | Some q => q end.
 Definition nauto (x : jitem) : Z :=
@@ -75,7 +75,7 @@ Definition nautos (line : list jitem) : Z := fold_right (fun x a => (nauto x + a
 Definition fill_auto (share : Q) (x : jitem) : jitem :=
   mkJ (jid x) (jw x) (jpb x)
       (Some (match jml x with None => share | Some q => q end))
-      (Some (match jmr x with None => share | Some q => q end)) (jgrow x).
+      (Some (match jmr x with None => share | Some q => q end)) (jgrow x) (jmin x) (jmax x).
 
 (* placed item: id, position_x (margin-box left edge), used content width, used margins *)
 Record placed := mkP { pid : Z; px : Q; pw : Q; pml : Q; pmr : Q }.
@@ -108,7 +108,9 @@ Fixpoint place_loop (j : justify) (free gap growths : Q) (n : nat) (first : bool
                | _ => jw x
                end in
       let mw := oz (jml x) + w + jpb x + oz (jmr x) in
-      mkP (jid x) pos1 w (oz (jml x)) (oz (jmr x))
+      (* the width written by 'stretch' goes through min/max again in the final block layout of the item *)
+      let wf := match j with JStretch => Qmax (jmin x) (qmin_opt w (jmax x)) | _ => w end in
+      mkP (jid x) pos1 wf (oz (jml x)) (oz (jmr x))
         :: place_loop j free gap growths n false (pos1 + mw + between j free n) t
   end.
 
